@@ -625,10 +625,57 @@ def cmp_prim(E, st, frame, b, t, c, args):
     if va is not None and vb is not None and op in ('Eq', 'Ne') and len(va) == 1 and len(vb) == 1:
         (ia, fa), = va.items()
         (ib, fb), = vb.items()
+        if ia == ib and len(fa) == 1 and len(fb) == 1:
+            # same variant with one scalar payload (Some(x) == Some(y)): compare the payloads
+            pa, pb = E.scalar(st, fa[0]), E.scalar(st, fb[0])
+            if pa[0] in ('I', 'F') and pa[0] == pb[0] and not (pa[0] == 'F' and (pa[3] or pb[3])):
+                d = A.cmp_decide(op, pa, pb)
+                if d is not None:
+                    return const_int(1 if d else 0)
+                ta = pa[4] or (E._fconst_term(pa) if pa[0] == 'F' else None)
+                tb = pb[4] or (E._fconst_term(pb) if pb[0] == 'F' else None)
+                return E.reg(mk_int(0, 1, 0, A.mkterm(op, ta, tb) or T('o', E.site(frame, b, 'cmp'))))
+    if va is not None and vb is not None and op in ('Eq', 'Ne') and len(va) == 1 and len(vb) == 1:
+        (ia, fa), = va.items()
+        (ib, fb), = vb.items()
         if ia != ib:
             return const_int(0 if op == 'Eq' else 1)
         if not fa and not fb:
             return const_int(1 if op == 'Eq' else 0)
+    if va is not None and vb is not None and op in ('Eq', 'Ne') and 1 <= len(va) <= 3 and 1 <= len(vb) <= 3 and len(va) * len(vb) > 1 \
+            and a[0] == 'E' and bb[0] == 'E' and not getattr(E, '_in_enum_split', False):
+        # Option == Option with an undetermined variant: one state per combination of variants
+        outs = []
+        E._in_enum_split = True
+        try:
+            for ia, fa in va.items():
+                for ib, fb in vb.items():
+                    s_i = st.copy()
+                    if a[1] is not None:
+                        s_i.erf[a[1]] = frozenset({ia})
+                    if bb[1] is not None:
+                        s_i.erf[bb[1]] = frozenset({ib})
+                    if ia != ib:
+                        outs.append((s_i, const_int(0 if op == 'Eq' else 1)))
+                    elif not fa and not fb:
+                        outs.append((s_i, const_int(1 if op == 'Eq' else 0)))
+                    elif len(fa) == 1 and len(fb) == 1:
+                        pa, pb = E.scalar(s_i, fa[0]), E.scalar(s_i, fb[0])
+                        if pa[0] in ('I', 'F') and pa[0] == pb[0] and not (pa[0] == 'F' and (pa[3] or pb[3])):
+                            d = A.cmp_decide(op, pa, pb)
+                            if d is not None:
+                                outs.append((s_i, const_int(1 if d else 0)))
+                            else:
+                                ta = pa[4] or (E._fconst_term(pa) if pa[0] == 'F' else None)
+                                tb = pb[4] or (E._fconst_term(pb) if pb[0] == 'F' else None)
+                                outs.append((s_i, E.reg(mk_int(0, 1, 0, A.mkterm(op, ta, tb) or T('o', E.site(frame, b, 'cmp'))))))
+                        else:
+                            outs.append((s_i, mk_int(0, 1, 0, T('o', E.site(frame, b, 'cmp')))))
+                    else:
+                        outs.append((s_i, mk_int(0, 1, 0, T('o', E.site(frame, b, 'cmp')))))
+        finally:
+            E._in_enum_split = False
+        return outs
     return mk_int(0, 1, 0, T('o', E.site(frame, b, 'cmp')))
 
 
@@ -2886,3 +2933,35 @@ def seq_split_at(E, st, frame, b, t, c, args):
     st.cells[c1] = ('S', l1, seq[2], i1)
     st.cells[c2] = ('S', l2, seq[2], i2)
     return ('A', (('R', c1, (), mut), ('R', c2, (), mut)))
+
+
+@raw_model(['then', 'then_some'], pred=lambda c: (c.get('rself') or '') == 'bool' and c.get('rcrate') == 'core')
+def bool_then(E, frame, b, t, sts, c, quiet):
+    """bool::then(f) / then_some(v): Some(f()) / Some(v) when true, None when false (one state per case)"""
+    out = []
+    cls = E.closure_bodies_in(frame, t)
+    for st in sts:
+        args = E.arg_vals(st, frame, t)
+        for s_b, truth in split_bool(E, st, args[0]):
+            if truth is None:
+                E.write_dest(s_b, frame, t, E.expand(('T', E.dest_ty(frame, t), E.site(frame, b, 'then'))))
+                out.append(s_b)
+                continue
+            if not truth:
+                E.write_dest(s_b, frame, t, ('E', None, ((0, ()),)))
+                out.append(s_b)
+                continue
+            if c['item'] == 'then_some':
+                E.write_dest(s_b, frame, t, ('E', None, ((1, (args[1],)),)))
+                out.append(s_b)
+            elif cls:
+                ci, body = cls[0]
+                for s_f, r_f in E.run_closure_once(frame, b, t, s_b, ci, body, quiet, []):
+                    if r_f == BOT:
+                        continue
+                    E.write_dest(s_f, frame, t, ('E', None, ((1, (r_f,)),)))
+                    out.append(s_f)
+            else:
+                E.write_dest(s_b, frame, t, E.expand(('T', E.dest_ty(frame, t), E.site(frame, b, 'then'))))
+                out.append(s_b)
+    return out
